@@ -701,19 +701,23 @@ EXT_CONSTANTS = {
 # ----------------------------------------------------------------------------- attribute access on models
 
 
+def ext_entity(interp, full: str) -> Any:
+    """An external name: a modelled constant, or a reference to the external entity."""
+    if full in EXT_CONSTANTS:
+        return EXT_CONSTANTS[full]
+    if full.startswith("rdflib"):
+        from . import models_rdflib
+
+        r = models_rdflib.constant(interp, full)
+        if r is not MISSING:
+            return r
+    return ExtRef(full)
+
+
 def getattr_ext(interp, obj: Any, name: str) -> Any:
     if isinstance(obj, ExtRef):
         full = f"{obj.name}.{name}"
-        full = CANON.get(full, full)
-        if full in EXT_CONSTANTS:
-            return EXT_CONSTANTS[full]
-        if full.startswith("rdflib"):
-            from . import models_rdflib
-
-            r = models_rdflib.constant(interp, full)
-            if r is not MISSING:
-                return r
-        return ExtRef(full)
+        return ext_entity(interp, CANON.get(full, full))
     if isinstance(obj, Msg):
         return msg_getattr(interp, obj, name)
     if isinstance(obj, MsgClass):
@@ -739,7 +743,9 @@ def getattr_ext(interp, obj: Any, name: str) -> Any:
     if isinstance(obj, tuple):
         return ExtMethod(obj, "tuple", name)
     if isinstance(obj, (GenObj, AIter, SymIter)):
-        return ExtMethod(obj, "iterator", name)
+        if name in ("__next__", "__iter__", "close", "send", "throw"):
+            return ExtMethod(obj, "iterator", name)
+        raise interp.exc("AttributeError", f"'generator' object has no attribute '{name}'")
     if isinstance(obj, FuncRef):
         if name == "__name__":
             return obj.info.name
@@ -817,6 +823,13 @@ def copy_msg(interp, m: Msg, parent: Any = None) -> Msg:
         else:
             out.fields[k] = v
     return out
+
+
+def _coerce_scalar(val: Any) -> Any:
+    """str subclasses of modelled libraries (rdflib URIRef/BNode/Literal) are accepted by protobuf as str."""
+    if isinstance(val, ExtObj) and val.kind in _STR_LIKE_KINDS:
+        return val.attrs["value"] if "value" in val.attrs else val.attrs["lex"]
+    return val
 
 
 def _check_scalar(interp, fd, val: Any) -> None:
@@ -899,6 +912,7 @@ def new_msg(interp, mtype: str, args: list, kwargs: dict) -> Msg:
             m.fields[k] = copy_msg(interp, v, (m, k))
             m.present.add(k)
         else:
+            v = _coerce_scalar(v)
             _check_scalar(interp, fd, v)
             _set_oneof(interp, m, k)
             m.fields[k] = v
@@ -942,6 +956,7 @@ def msg_setattr(interp, m: Msg, name: str, val: Any) -> None:
         raise interp.exc("AttributeError", f"Assignment not allowed (no field \"{name}\" in protocol message {m.mtype})")
     if fd.is_message or fd.repeated:
         raise interp.exc("AttributeError", f"Assignment not allowed to message, map, or repeated field \"{name}\" in protocol message object")
+    val = _coerce_scalar(val)
     _check_scalar(interp, fd, val)
     interp.emit("msg_set", msg=m, field=name, value=val, shared=m.shared and interp.init_depth == 0)
     _set_oneof(interp, m, name)
@@ -1040,6 +1055,8 @@ def call_method(interp, em: ExtMethod, args: list, kwargs: dict) -> Any:
     if k == "iterator":
         if em.name == "__next__":
             return _b_next(interp, [em.recv], {})
+        if em.name == "__iter__":
+            return em.recv
         if em.name == "close":
             if isinstance(em.recv, GenObj):
                 em.recv.done = True
